@@ -295,7 +295,11 @@ def programs_for(draw, basis, nthreads=None, same_target=False):
         for _ in range(draw(st.integers(1, 3))):
             kind = draw(st.sampled_from(["count", "count", "of_length", "in", "up_to", "recreate_count"]))
             if kind == "in":
-                if draw(st.booleans()):
+                classical_elems = [b for b in basis if not (b and isinstance(b[0], list)) and 1 <= len(b) <= nmax + 1]
+                if classical_elems and draw(st.integers(0, 4)) == 0:
+                    # a basis element itself: never a member, and exactly what a level under construction may still hold
+                    prog.append([kind, list(draw(st.sampled_from(classical_elems)))])
+                elif draw(st.booleans()):
                     prog.append([kind, list(draw(gen.perms(1, nmax)))])
                 else:
                     # a one-point extension of a member of the class (new point towards the end
